@@ -85,6 +85,9 @@ def bad_cells(s, allow78, code=None, source="", base=None):
         if not (0x2800 <= o <= 0x28FF):
             if code is not None and c in source and c not in defined(code):
                 continue
+            # ... or is such a character with the highlight bits or-ed into its code point (U+2AAF -> U+2AEF)
+            if code is not None and allow78 and any((ord(s_) | 0xC0) == o and s_ not in defined(code) and not (0x2800 <= ord(s_) <= 0x28FF) for s_ in source):
+                continue
             # the same position of the unhighlighted braille holds a passed-through character
             if code is not None and base is not None and len(base) == len(s) and not (0x2800 <= ord(base[i]) <= 0x28FF) \
                     and base[i] in source and base[i] not in defined(code):
@@ -421,6 +424,8 @@ def term_corpus(tier):
                 out.append((terms.shape_name(sh), terms.build(sh, terms.Filler("mixed"))))
     for name, t in canon_run.special_terms():
         out.append(("special:" + name, t))
+    tc = canon_run.test_cases(private_use=False)            # the inputs of the repository's own tests: they reach rules the grammar does not
+    out += tc if tier == "thorough" else tc[::2]
     return out
 
 
